@@ -13,8 +13,8 @@ pub struct BinCtx {
     pub h: HCtx,
     pub child: Option<Child>,
     pub addrs: Vec<String>,
-    pub args: Vec<String>,
-    pub envs: Vec<(String, String)>,
+    pub args: Vec<std::ffi::OsString>,
+    pub envs: Vec<(String, std::ffi::OsString)>,
     pub bin: String,
 }
 
@@ -106,10 +106,9 @@ impl BinCtx {
 
     /// boot listen=flag:N|env:N dir=flag|env allow=none|flag:a,b|env:a,b|flagempty versions=default|flag:K|env:K days=default|flag:K|env:K
     pub fn boot(&mut self, toks: &[&str]) {
-        let mut args: Vec<String> = vec![];
-        let mut envs: Vec<(String, String)> = vec![];
+        let mut args: Vec<std::ffi::OsString> = vec![];
+        let mut envs: Vec<(String, std::ffi::OsString)> = vec![];
         let mut model: Vec<String> = vec![];
-        let dir = self.h.l1.data_dir().to_string_lossy().to_string();
         self.addrs.clear();
         for t in toks {
             let (k, v) = t.split_once('=').unwrap();
@@ -120,14 +119,24 @@ impl BinCtx {
                     let list: Vec<String> = (0..n).map(|_| format!("127.0.0.1:{}", free_port())).collect();
                     self.addrs = list.clone();
                     match src {
-                        "flag" => { args.push("--listen".into()); args.push(list.join(",")); }
-                        "flags" => { for a in &list { args.push("--listen".into()); args.push(a.clone()); } }
-                        "env" => envs.push(("LISTEN".into(), list.join(","))),
+                        "flag" => { args.push("--listen".into()); args.push(list.join(",").into()); }
+                        "flags" => { for a in &list { args.push("--listen".into()); args.push(a.clone().into()); } }
+                        "env" => envs.push(("LISTEN".into(), list.join(",").into())),
                         other => panic!("listen src {other}"),
                     }
                     model.push(format!("listen={src}:{n}"));
                 }
                 "dir" => {
+                    // a trailing 8 asks for a directory whose name is not valid UTF-8 (Linux permits it)
+                    let (src, raw) = match src.strip_suffix('8') { Some(x) => (x, true), None => (src, false) };
+                    if raw {
+                        use std::os::unix::ffi::OsStrExt;
+                        let p = self.h.l1.data_dir().join(std::ffi::OsStr::from_bytes(b"data-\xe9\xff\xfe-dir"));
+                        self.h.l1.keep_dir = Some(p);
+                        self.h.l1.open(false);
+                        self.h.rebuild();
+                    }
+                    let dir = self.h.l1.data_dir().into_os_string();
                     match src {
                         "flag" => { args.push("--data-dir".into()); args.push(dir.clone()); }
                         "env" => envs.push(("DATA_DIR".into(), dir.clone())),
@@ -141,9 +150,9 @@ impl BinCtx {
                     let canon: Vec<String> = val.split(',').filter(|s| !s.is_empty()).map(|c| { let u = self.h.l1.client(c.parse().unwrap()); self.h.l1.canon.id(u).to_string() }).collect();
                     match src {
                         "none" => {}
-                        "flag" => { args.push("--allow-client-id".into()); args.push(ids.join(",")); }
-                        "flags" => { for a in &ids { args.push("--allow-client-id".into()); args.push(a.clone()); } }
-                        "env" => envs.push(("CLIENT_ID".into(), ids.join(","))),
+                        "flag" => { args.push("--allow-client-id".into()); args.push(ids.join(",").into()); }
+                        "flags" => { for a in &ids { args.push("--allow-client-id".into()); args.push(a.clone().into()); } }
+                        "env" => envs.push(("CLIENT_ID".into(), ids.join(",").into())),
                         other => panic!("allow src {other}"),
                     }
                     model.push(format!("allow={src}:{}", if canon.is_empty() { "-".to_string() } else { canon.join(",") }));
@@ -222,6 +231,20 @@ impl BinCtx {
             ["kill"] => {
                 self.kill();
                 self.h.l1.out.push("OP mark kill".into());
+                self.h.l1.out.push("R mark".into());
+            }
+            ["dirstat"] => {
+                // what an operator sees on disk: is the database file in the directory that was
+                // given, and did anything else appear next to that directory?
+                let real = self.h.l1.data_dir();
+                let dbfile = real.join("taskchampion-sync-server.sqlite3").exists();
+                let extra = match (&self.h.l1.keep_dir, real.parent()) {
+                    (Some(_), Some(parent)) => std::fs::read_dir(parent)
+                        .map(|rd| rd.filter_map(|e| e.ok()).filter(|e| e.path().is_dir() && Some(e.file_name().as_os_str()) != real.file_name()).count())
+                        .unwrap_or(0),
+                    _ => 0,
+                };
+                self.h.l1.out.push(format!("OP mark datadir dbfile={} extra={}", dbfile as u8, extra));
                 self.h.l1.out.push("R mark".into());
             }
             ["restart"] => {
